@@ -100,7 +100,7 @@ func crashPrepare(dir, op string) error {
 		for i := 0; i < 12; i++ {
 			fmt.Fprintf(&b, "x/y/z/xyz%02d|%d|4\n", i, 1700000000+i)
 		}
-		fmt.Fprintf(&b, "%s|1700000100|0\n", c14Key(false).FsName())
+		fmt.Fprintf(&b, "%s|%d|0\n", c14Key(false).FsName(), atOld)
 		return ioutil.WriteFile(filepath.Join(dir, "atimes"), []byte(b.String()), 0644)
 	}
 	return nil
@@ -134,7 +134,7 @@ func crashRun(dir, op string) error {
 	case "atimes-rewrite":
 		l := caching.VerifNewLimiter(dir, 1<<40, 1700000000)
 		l.Startup()
-		l.Access(c14Key(false).FsName(), int64(len(bodyOld)), 1700000200)
+		l.Access(c14Key(false).FsName(), int64(len(bodyOld)), atNew)
 		l.Access("x/y/z/xyz03", 4096, 1700000201)
 		l.Flush()
 		return nil
@@ -227,6 +227,9 @@ func straceArgs(dir, op, out string) []string {
 	return a
 }
 
+// the entry's access time in the prepared log, and the one the atimes-rewrite operation flushes
+const atOld, atNew = int64(1700000100), int64(1700000200)
+
 type crashCase struct {
 	Op    string
 	Call  string // the syscall the kill is injected on ("" = run to completion)
@@ -248,7 +251,7 @@ func (c *crashCase) Sx() sx.V {
 		cs = append(cs, sx.L(sx.S(e[0]), sx.S(e[1]), sx.S(arg)))
 	}
 	return sx.L(sx.S("crash"), sx.S(c.Op), sx.S(c.Call), sx.I(int64(c.N)), sx.L(cs...), sx.I(int64(c.index)),
-		sx.L(sx.S(bodyOld), sx.S(bodyNew)))
+		sx.L(sx.S(bodyOld), sx.S(bodyNew)), sx.L(sx.I(atOld), sx.I(atNew)))
 }
 
 func crashCaseFromSx(v sx.V) *crashCase {
@@ -324,17 +327,27 @@ func (c *crashCase) Run() (sx.V, error) {
 	cmd.Run() // exits by the injected SIGKILL
 	os.Remove(out)
 	// what a restarted rrrouter finds
+	lastUse := int64(-1) // (atimes-rewrite) the entry's last use as a restarted limiter reads it from the log; 0: none
 	started := func() (ok bool) {
 		defer func() {
 			if r := recover(); r != nil {
 				ok = false
 			}
 		}()
-		caching.VerifNewLimiter(dir, 1<<40, 1700000300).Startup()
+		l := caching.VerifNewLimiter(dir, 1<<40, 1700000300)
+		l.Startup()
+		if c.Op == "atimes-rewrite" && c.Call == "" {
+			// (only for the run that is not killed: where exactly a kill on an open call lands relative to the log's
+			// writes is not pinned down well enough to say which records must be there)
+			lastUse = 0
+			if v, found := l.WithAccessTime()[c14Key(false).FsName()]; found {
+				lastUse = v[0]
+			}
+		}
 		return true
 	}()
 	if !started {
-		return sx.L(sx.L(sx.S("startup-panic")), sx.L(sx.S("startup-panic")), sx.L(sx.S("startup-panic")), sx.L(sx.S("startup-panic"))), nil
+		return sx.L(sx.L(sx.S("startup-panic")), sx.L(sx.S("startup-panic")), sx.L(sx.S("startup-panic")), sx.L(sx.S("startup-panic")), sx.I(-2)), nil
 	}
 	s := caching.NewDiskStorage("c14", dir, 1<<40, discardLogger, time.Now)
 	defer s.SetIsReplaced()
@@ -355,7 +368,7 @@ func (c *crashCase) Run() (sx.V, error) {
 		}
 		return sx.L(sx.S("refilled"), probeKey(s, k))
 	}
-	return sx.L(p1, p2, heal(c14Key(false), p1), heal(c14Key(true), p2)), nil
+	return sx.L(p1, p2, heal(c14Key(false), p1), heal(c14Key(true), p2), sx.I(lastUse)), nil
 }
 
 func genCrash(tier string, rng *Rng) []Case {
